@@ -39,6 +39,21 @@ NOTES = {
  'c17-7': 'round 3; missed at first; caught after per-character commands (re-enable, reset error) were added to the pacing runs',
  'c17-9': 'round 3; missed at first; caught after the vertical-blank deadline is also observed while the processor runs at priority level 15',
  'c18-9': 'round 3; missed at first; caught after the memory operand of the register-vs-memory pairs goes through every addressing mode (C03 caught it at once)',
+ 'c01-7': 'round 3; missed by C01 at first (no function keys were typed), caught by C02 at once; C01 catches it after the special-key scenario was added',
+ 'c01-8': 'round 3; missed by C01 at first (only printable keys were typed), caught by C09 at once; C01 catches it after arrow keys (multi-byte sequences) were added',
+ 'c02-10': 'round 4; missed at first (SWAPxI was not among the C02 opcodes); caught after SWAP cases, also through %r0, were added',
+ 'c03-12': 'round 4; missed at first; caught after MOVTRW address probes were added',
+ 'c06-10': 'round 4; missed at first; caught after CALL / JSB operands computed from %sp / %pc were added',
+ 'c12-11': 'round 4; missed at first; caught after the longest legal encodings were added to the no-panic cases (C04 caught it at once)',
+ 'c05-10': 'round 4; missed at first; caught after jumps to their own address were added',
+ 'c07-10': 'round 4; caught by the translated priority table (proof obligation breaks); no failing input found by the quick generator',
+ 'c07-11': 'round 4; missed at first; caught after handlers that overwrite registers before RETPS were added',
+ 'c17-12': 'round 4; missed at first; caught after receiver-disable commands during the pacing runs were added (C14 caught it at once)',
+ 'c19-10': 'round 4; caught by the translated shape of Dmd::reset (proof obligation breaks); no failing input found by the C19 generator',
+ 'c19-11': 'round 4; missed at first; caught after a key injected while the firmware boots was added (C08 caught it at once)',
+ 'c13-10': 'round 4; missed at first; caught after zero divisors with a faulting second source were added',
+ 'c13-11': 'round 4; missed at first; caught after interrupts whose handler faults in the same step were added',
+ 'c18-11': 'round 4; missed at first; caught after expanded types on the second operand of the 2-/3-operand pairs were added (C03 caught it at once)',
  'c03-3': 'missed by the first C03 slice (only two-operand probes); caught after expanded types are spread over 3- and 4-operand instructions',
 }
 for f in sorted(os.listdir('/var/tmp/mutres')):
